@@ -13,7 +13,11 @@ domain layouts: checks/sched_common.py profile `topo`), replayed by harness/driv
 Provisioner.Schedule.  Topology_Trace.tla evaluates G_C02_Affinity / G_C02_Spread at every H1 commit
 (admission time, against the spec's own counts) and G_C02_Anti / G_C02_AntiInverse on the final
 Results; a second pass (Mode "end") judges the same traces with the order-free end-state forms only
-(Inv_C02_EndState: what the check can say without hook H1)."""
+(Inv_C02_EndState: what the check can say without hook H1).
+
+Quick tier: two themed 3-pod scopes of the closed model chosen by the seed (seeds 0..3 cover all eight) + a small 2-pod scope, the
+unguarded forms check, coverage and all Weak configs run as background TLC jobs while the scenarios are enumerated, replayed and
+validated (both validation passes side by side); the wide scopes belong to the thorough tier."""
 import concurrent.futures as cf
 import itertools
 import json
@@ -25,31 +29,45 @@ from checks import C01 as c01
 import vlib
 
 MAP_FIELDS = {"labels", "sel", "nsSel"}
-ALL_ARCHS = "{1,2,3,4,5,6,7,8,9,10,11,12,13,14,15,16,17,18,19,20,21,22,23,24}"
-ALL_LAYOUTS = "{0,1,2,3,4,5,6,7,8,9}"
+ALL_ARCHS = "{" + ",".join(str(i) for i in range(1, 33)) + "}"
+ALL_LAYOUTS = "{" + ",".join(str(i) for i in range(0, 14)) + "}"
 FLAGS = ("W_AllDomains = TRUE  W_Inverse = TRUE  W_Certain = TRUE  W_Bootstrap = TRUE  W_Slack = 0  W_Exclude = TRUE  "
          "W_MatchKeys = TRUE  W_MinDomains = TRUE  W_Policies = TRUE  W_Guard = TRUE")
 INVS = ["Inv_C02_EndState", "Inv_C02_Admission", "Inv_C02_Forms"]
+# themed 3-pod scopes of the closed model (each 10-40 thousand states): the quick tier checks TWO of them, chosen by the seed, the
+# thorough tier all of them (plus the wide scopes below)
+THEMES = [
+    "NPods = 3  Archs = {1,3,4,6}  Layouts = {0,1,2}  MaxClaims = 2",            # anti-affinity / affinity core
+    "NPods = 3  Archs = {7,9,11,18}  Layouts = {0,3}  MaxClaims = 2",            # spread core
+    "NPods = 3  Archs = {25,26,27}  Layouts = {0,10,11}  MaxClaims = 2",         # one hostname anti-affinity term, carriers with different labels
+    "NPods = 3  Archs = {27,28,29,31}  Layouts = {0,12}  MaxClaims = 2",         # the same for zone terms / a shared affinity term
+    "NPods = 3  Archs = {1,7,10,24}  Layouts = {0,3}  MaxClaims = 2",            # hostname spread, minDomains = number of zones
+    "NPods = 3  Archs = {12,13,14,22}  Layouts = {6,7}  MaxClaims = 2",          # node inclusion policies, matchLabelKeys
+    "NPods = 3  Archs = {15,16,17,23}  Layouts = {1,8}  MaxClaims = 2",          # namespaces / namespaceSelector
+    "NPods = 3  Archs = {7,18,30,32}  Layouts = {3,13}  MaxClaims = 2",          # constraints carried by pods they do not select
+]
+SHARED_GEN = "NPods = 2  Archs = {25,26,27,28,29,30,31,32,7}  Layouts = {0,10,11,12,13}  MaxClaims = 2"
 SCOPE = {
-    # mc: exhaustive closed-model scopes; gen: scenario enumeration scopes (replay = sample size, None = all);
-    # orders: dequeue orders per enumerated scenario ("one" random / "all"); explore: explorer scenarios per profile
-    "quick": dict(mc=["NPods = 3  Archs = {1,3,4,6,7,10}  Layouts = {0,1,2,3}  MaxClaims = 2",
-                      "NPods = 2  Archs = {2,5,9,11,12,13,14,15,16,17,18,20,22,23}  Layouts = {1,4,5,6,7,8,9}  MaxClaims = 2",
-                      "NPods = 3  Archs = {1,7,24}  Layouts = {0,1,3}  MaxClaims = 2"],
-                  gen=[("NPods = 2  Archs = %s  Layouts = %s  MaxClaims = 2" % (ALL_ARCHS, ALL_LAYOUTS), 700),
-                       ("NPods = 3  Archs = {1,3,4,5,6,7,9,10,11,14,18,20}  Layouts = {0,1,2,3,4,6}  MaxClaims = 2", 300)],
-                  orders="one", explore={"topo": 1200, "interpod": 200}),
-    # every archetype takes part in a 3-pod scope (a: core, d: spread policies, e: namespaces / hostname / limited affinity); b: all pairs x all
-    # layouts with a third NodeClaim; c: four pods
+    # mc: exhaustive closed-model scopes (+ THEMES); gen: scenario enumeration scopes (sample size, None = all; orders "one" random / "all");
+    # explore: explorer scenarios per profile
+    "quick": dict(mc=["NPods = 2  Archs = {2,5,8,19,20,21}  Layouts = {1,4,5,9}  MaxClaims = 2"], themes=2,
+                  gen=[(SHARED_GEN, None, "all"),
+                       ("NPods = 2  Archs = %s  Layouts = %s  MaxClaims = 2" % (ALL_ARCHS, ALL_LAYOUTS), 450, "one"),
+                       ("NPods = 3  Archs = {1,3,4,5,6,7,9,10,11,14,18,20,25,26,28,29}  Layouts = {0,1,2,3,4,6,10,12}  MaxClaims = 2", 200, "one")],
+                  explore={"topo": 700, "interpod": 100}),
+    # a-e: every archetype takes part in a 3-pod scope; b: all pairs x all layouts; c: four pods; f: a third NodeClaim
     "thorough": dict(mc=["NPods = 3  Archs = {1,3,4,5,6,7,9,10,11,24}  Layouts = {0,1,2,3}  MaxClaims = 2",
-                         "NPods = 2  Archs = %s  Layouts = %s  MaxClaims = 3" % (ALL_ARCHS, ALL_LAYOUTS),
+                         "NPods = 2  Archs = %s  Layouts = %s  MaxClaims = 2" % (ALL_ARCHS, ALL_LAYOUTS),
                          "NPods = 4  Archs = {3,6,7}  Layouts = {0,3}  MaxClaims = 2",
                          "NPods = 3  Archs = {8,12,13,14,18,22,24}  Layouts = {5,6,7}  MaxClaims = 2",
-                         "NPods = 3  Archs = {2,15,16,17,19,20,21,23}  Layouts = {1,8,9}  MaxClaims = 2"],
-                     gen=[("NPods = 2  Archs = %s  Layouts = %s  MaxClaims = 2" % (ALL_ARCHS, ALL_LAYOUTS), None),
-                          ("NPods = 3  Archs = %s  Layouts = %s  MaxClaims = 2" % (ALL_ARCHS, ALL_LAYOUTS), 9000),
-                          ("NPods = 4  Archs = {1,3,4,5,6,7,9,10,11,14,18,20}  Layouts = {0,1,2,3,4,6}  MaxClaims = 2", 1500)],
-                     orders="all", explore={"topo": 12000, "interpod": 2000}),
+                         "NPods = 3  Archs = {2,15,16,17,19,20,21,23}  Layouts = {1,8,9}  MaxClaims = 2",
+                         "NPods = 2  Archs = {2,3,6,7,10,26,28}  Layouts = {0,3,10}  MaxClaims = 3",
+                         "NPods = 3  Archs = {25,26,27,28,29,30,31}  Layouts = {0,10,11,12,13}  MaxClaims = 2"], themes=len(THEMES),
+                     gen=[("NPods = 2  Archs = %s  Layouts = %s  MaxClaims = 2" % (ALL_ARCHS, ALL_LAYOUTS), None, "all"),
+                          ("NPods = 3  Archs = %s  Layouts = %s  MaxClaims = 2" % (ALL_ARCHS, ALL_LAYOUTS), 9000, "all"),
+                          ("NPods = 3  Archs = {25,26,27,28,29,30,31,32,7,18}  Layouts = {0,10,11,12,13}  MaxClaims = 2", None, "all"),
+                          ("NPods = 4  Archs = {1,3,4,5,6,7,9,10,11,14,18,20,26,28}  Layouts = {0,1,2,3,4,6,10}  MaxClaims = 2", 1500, "all")],
+                     explore={"topo": 12000, "interpod": 2000}),
 }
 # spec mutation -> invariant TLC must report
 WEAK = {"AllDomains": "Inv_C02_EndState", "Inverse": "Inv_C02_EndState", "Certain": "Inv_C02_EndState", "Bootstrap": "Inv_C02_EndState",
@@ -138,11 +156,22 @@ def tlc_weak(run, w):
 
 def judge(run, files, par=None):
     """trace validation: admission-time guards (hook H1) + anti-affinity on Results, then the order-free end-state forms alone"""
-    viol = run.validate("Topology_Trace", "Topology_Trace.cfg", files, par=par, timeout=3000)
     hooked = bool(run.extra_cov.get("hook_h1_events"))
-    counted = (run.traces_validated, run.events_validated)
-    viol_end = run.validate("Topology_Trace", "Topology_TraceEnd.cfg", files, par=par, timeout=3000)
-    run.traces_validated, run.events_validated = counted      # the second pass judges the same traces
+    twins = {}
+    for f in files:         # the second pass reads hard links of the same traces (run.validate writes <trace>.viol.json next to its input)
+        t = f[:-len(".ndjson")] + ".end.ndjson" if f.endswith(".ndjson") else f + ".end"
+        if os.path.exists(t):
+            os.remove(t)
+        os.link(f, t)
+        twins[t] = f
+    t0, e0 = run.traces_validated, run.events_validated
+    with cf.ThreadPoolExecutor(max_workers=2) as vx:
+        f1 = vx.submit(run.validate, "Topology_Trace", "Topology_Trace.cfg", files, par=par, timeout=3000)
+        f2 = vx.submit(run.validate, "Topology_Trace", "Topology_TraceEnd.cfg", sorted(twins), par=par, timeout=3000)
+        viol, viol_end = f1.result(), f2.result()
+    for v in viol_end:
+        v["file"] = twins.get(v["file"], v["file"])
+    run.traces_validated, run.events_validated = t0 + (run.traces_validated - t0) // 2, e0 + (run.events_validated - e0) // 2
     notes = [v for v in viol if str(v.get("guard", "")).startswith("Note_")]
     judged = [v for v in viol if v not in notes]
     if hooked:
@@ -180,43 +209,58 @@ def check(run):
                 "options) run through the real Provisioner.Schedule; it is non-trivial when the scenario carries a required (anti)affinity "
                 "term or a DoNotSchedule spread constraint and Karpenter placed at least one pod (only then a C02 guard has something to say)")
     skip_model = bool(os.environ.get("VERIF_SKIP_MODEL"))       # developer aid for mutation runs, never used by registered commands
-    # 1. closed model: invariants, coverage, spec mutations
+    # 1. closed model: invariants, coverage, the unguarded forms check, spec mutations - independent TLC jobs that run in the background
+    #    while the scenarios are generated, replayed and validated (collected at the end; run.tlc is thread-safe)
+    pool = cf.ThreadPoolExecutor(max_workers=3 if dev else 6)
+    builder = cf.ThreadPoolExecutor(max_workers=1)
+    built = builder.submit(run.build_drv)       # the harness is built while TLC enumerates the scenarios
+    jobs = []
     if not skip_model:
-        for i, consts in enumerate(tier["mc"]):
+        themes = [THEMES[(run.seed * tier["themes"] + k) % len(THEMES)] for k in range(tier["themes"])]
+        tw = 2 if dev else max(2, vlib.NCPU // 4)
+        for i, consts in enumerate(themes + tier["mc"]):
             write_cfg(run, "Topology_MC_run%d.cfg" % i, consts, "Spec", INVS)
-            run.closed_model("Topology", "Topology_MC_run%d.cfg" % i, workers=4 if dev else None, heap="4g" if dev else "8g", timeout=3000)
+            jobs.append(pool.submit(run.closed_model, "Topology", "Topology_MC_run%d.cfg" % i, workers=tw, heap="4g", timeout=6000))
+        jobs.append(pool.submit(run.closed_model, "Topology", "Topology_Free.cfg", workers=2, heap="3g", timeout=1800))
         write_cfg(run, "Topology_Cov_run.cfg", "NPods = 2  Archs = {3,6,7}  Layouts = {3}  MaxClaims = 2", "Spec", INVS)
-        r = run.tlc("Topology", "Topology_Cov_run.cfg", workers=2, coverage=True, timeout=900)
-        if not r.ok:
-            raise vlib.InfraError("coverage run of the closed model failed: %s" % (r.violated or r.error))
-        if r.coverage_zero:
-            raise vlib.InfraError("vacuous closed model, actions never taken: %s" % r.coverage_zero)
-        # the order-free end-state forms vs the resolution semantics over ALL placement sequences (guards off)
-        run.closed_model("Topology", "Topology_Free.cfg", workers=4 if dev else None, heap="4g", timeout=1800)
 
-        with cf.ThreadPoolExecutor(max_workers=2 if dev else 5) as ex:
-            for w, got in ex.map(lambda w: (w, tlc_weak(run, w)), sorted(WEAK)):
-                if got != WEAK[w]:
-                    raise vlib.InfraError("spec mutation Topology_Weak%s.cfg not rejected by TLC as expected (got %s)" % (w, got))
-        run.notes.append("spec mutations rejected: " + ", ".join(sorted(WEAK)))
+        def coverage():
+            r = run.tlc("Topology", "Topology_Cov_run.cfg", workers=2, coverage=True, timeout=900, heap="2g")
+            if not r.ok:
+                raise vlib.InfraError("coverage run of the closed model failed: %s" % (r.violated or r.error))
+            if r.coverage_zero:
+                raise vlib.InfraError("vacuous closed model, actions never taken: %s" % r.coverage_zero)
+
+        def weak(w):
+            got = tlc_weak(run, w)
+            if got != WEAK[w]:
+                raise vlib.InfraError("spec mutation Topology_Weak%s.cfg not rejected by TLC as expected (got %s)" % (w, got))
+        jobs.append(pool.submit(coverage))
+        jobs += [pool.submit(weak, w) for w in sorted(WEAK)]
     # 2. TLC-enumerated scenarios x dequeue orders x options
     scenarios, total_enum, replayed = [], 0, 0
     exhaustive = True
-    for i, (consts, sample) in enumerate(tier["gen"] if not skip_model else tier["gen"][:1]):
+    gens = tier["gen"] if not skip_model else tier["gen"][:2]
+    for i, (consts, _, _) in enumerate(gens):
         write_cfg(run, "Topology_Gen_run%d.cfg" % i, consts, "GenSpec", ["GenPrint"])
-        enum = [fix_maps(s) for s in run.generate("Topology", "Topology_Gen_run%d.cfg" % i, workers=2, timeout=1800, heap="4g")]
+    with cf.ThreadPoolExecutor(max_workers=len(gens)) as gx:
+        enums = list(gx.map(lambda i: [fix_maps(s) for s in run.generate("Topology", "Topology_Gen_run%d.cfg" % i, workers=2, timeout=1800, heap="3g")],
+                            range(len(gens))))
+    for (consts, sample, orders), enum in zip(gens, enums):
         if not enum:
             raise vlib.InfraError("TLC generated no scenarios")
         total_enum += len(enum)
         if sample and sample < len(enum):
             enum = rng.sample(enum, sample)
             exhaustive = False
+        if orders != "all":
+            exhaustive = False
         replayed += len(enum)
         for s in enum:
-            for perm in orders_of(s, tier["orders"], rng):
+            for perm in orders_of(s, orders, rng):
                 o = OPTS[len(scenarios) % len(OPTS)]
                 scenarios.append(sc.with_options(with_order(s, perm, "q" + "".join(map(str, perm))), o, "o%d" % (len(scenarios) % len(OPTS))))
-    run.exhaustive = exhaustive and tier["orders"] == "all"
+    run.exhaustive = exhaustive
     n_enum = len(scenarios)
     # witnesses of the listed known findings (always replayed, so the KNOWN-FINDING lines do not depend on the seed)
     wdir = os.path.join(vlib.ROOT, "checks", "witness")
@@ -226,6 +270,8 @@ def check(run):
     # 3. seeded explorer
     for prof, n in tier["explore"].items():
         scenarios += [sc.explore(rng, prof, "x-%s-%d-%d" % (prof, run.seed, i)) for i in range(n)]
+    built.result()
+    builder.shutdown()
     files, sums = c01.run_driver(run, scenarios, "c02", procs)
     bad = [s for s in sums if s.get("status") != "ok"]
     if bad:
@@ -236,6 +282,11 @@ def check(run):
         run.note_case(s["name"], bool(scn) and interpod(scn) and (s.get("onNew", 0) + s.get("onExisting", 0)) > 0)
     # 4. trace validation
     judged, viol_end, notes, hooked = judge(run, files, 4 if dev else None)
+    for j in jobs:
+        j.result()          # a failed closed-model / vacuity job is an infrastructure error (raised here)
+    pool.shutdown()
+    if not skip_model:
+        run.notes.append("spec mutations rejected: " + ", ".join(sorted(WEAK)))
     run.samples = [{"scenario": scenarios[0]["name"], "summary": sums[0]}, {"scenario": scenarios[-1]["name"], "summary": sums[-1]}]
     run.extra_cov.update({
         "tlc_enumerated_scenarios": total_enum, "tlc_scenarios_replayed": replayed, "tlc_scenario_order_variants": n_enum,
